@@ -568,7 +568,27 @@ func c12QueryFailureAborts(c *Ctx, r string) {
 		return
 	}
 	readOnly := whenCond(true, func(a string) bool { return strings.Contains(a, "readOnly[") || strings.Contains(a, ").readOnly") })
-	q := &pathQ{fn: f, fromEntry: true, to: runs, via: callTo(sqlTxT + "Cancel"), deferVia: true, barrier: readOnly}
+	// the deferred function cancels whenever the statement failed: inside it, Cancel is skipped only on the `err == nil` edge
+	// (a further condition - on the owner of the transaction, say - leaves the failures of the other case without a Cancel)
+	cancel := callTo(sqlTxT + "Cancel")
+	errIsNil := whenCond(true, func(a string) bool { return strings.Contains(a, "err") && strings.Contains(a, " == ") && strings.Contains(a, "nil") })
+	cancelsOnError := func(in ssa.Instruction) bool {
+		d, ok := in.(*ssa.Defer)
+		if !ok {
+			return false
+		}
+		mc, ok := d.Call.Value.(*ssa.MakeClosure)
+		if !ok {
+			return deferMatches(d, cancel)
+		}
+		g := mc.Fn.(*ssa.Function)
+		if len(sites(g, cancel)) == 0 {
+			return false
+		}
+		qq := &pathQ{fn: g, fromEntry: true, to: isReturn, via: cancel, barrier: errIsNil}
+		return qq.bypass() == nil
+	}
+	q := &pathQ{fn: f, fromEntry: true, to: runs, via: cancelsOnError, barrier: readOnly}
 	if w := q.bypass(); w != nil {
 		c.fail(r, fnName(f)+":dml-failure->Cancel", c.pos(w[len(w)-1].Pos()), "a data-modifying statement is run by the query path in a transaction for which no cancel-on-error is registered: if it fails half way, what it wrote stays in the open transaction and can be committed ("+c.witnessStr(w)+")")
 	} else {
